@@ -83,6 +83,19 @@ def wrapP (step : Rat) (a b : Rat × Bool) : Bool := wrapAt step a.1 b.1
 def getCycleVector (g : GoodCfg) (step : Rat) (good : Bool) (ph : List Rat) (mask : List Bool) : List Int :=
   paint (cvSegs (wrapP step) (accept g good) (ph.zip mask))
 
+/-- Resolution of the `phase_step` option of `get_cycle_vector` / `Cycles`: the documented default
+    (`1.5*pi`, handed over as the double the implementation uses) applies ONLY when the caller passes
+    nothing; every explicit value — 0, 0.0, negative, huge — is the threshold, as given. -/
+def resolveStep (dflt : Rat) : Option Rat → Rat
+  | none => dflt
+  | some s => s
+
+/-- get_cycle_vector on one column with the `phase_step` argument as the caller wrote it
+    (`none` = argument omitted) -/
+def getCycleVectorOpt (g : GoodCfg) (dflt : Rat) (step? : Option Rat) (good : Bool) (ph : List Rat)
+    (mask : List Bool) : List Int :=
+  getCycleVector g (resolveStep dflt step?) good ph mask
+
 /-- number of labelled cycles -/
 def nCycles {α : Type} (segs : List (List α × Option Nat)) : Nat := (segs.filterMap (·.2)).length
 
@@ -127,7 +140,13 @@ open Protocol in
 def handle (o : Op) : Option String :=
   match o.name with
   | "CV" => some <| Id.run do
-      let some step := o.rat? "step" | return "bad-op"
+      -- `step=` is the explicit phase_step; with `dstep=` (the default) present it may be omitted (= argument omitted)
+      let some stepArg := (match o.str? "step" with
+        | none => some (none : Option Rat)
+        | some t => (parseRat? t).map some) | return "bad-op"
+      let some step := (match o.rat? "dstep" with
+        | some d => some (resolveStep d stepArg)
+        | none => stepArg) | return "bad-op"
       let some good := o.nat? "good" | return "bad-op"
       let some edge := o.rat? "edge" | return "bad-op"
       let some twopi := o.rat? "twopi" | return "bad-op"
